@@ -2,6 +2,7 @@ import MoneroModel.Drv.Util
 import MoneroModel.Model.Build
 import MoneroModel.Model.TxHash
 import MoneroModel.Ref.Keccak
+import MoneroModel.Spec.TxSkip
 open Monero
 /-! Driver for C03 (wire layout vs description) and C05 (transaction identifiers).
 Description token grammar: see DESIGN.md Appendix C / harness `src/desc.rs` (every list is `<count> item…`). -/
@@ -68,6 +69,16 @@ def idFromBytes (b : Bytes) (version p q : Nat) (isNull : Bool) : Bytes :=
   if version = 1 then K b else
   K (K (b.take p) ++ K ((b.drop p).take (q - p)) ++ (if isNull then List.replicate 32 0 else K (b.drop q)))
 
+/-- relation C of `c05_*`: identifier and prefix hash of the transaction that starts `b` (consumed part `b'`), computed from the raw bytes
+with the boundaries found by the by-the-book skipper `Spec.txBounds` (Spec/TxSkip.lean) — nothing from the model's parse.
+`-` where the definition does not apply (non-v1 without inputs); `skip-fail` if the skipper cannot walk bytes (never equal to a library answer) -/
+def specIdOfBytes (b' : Bytes) (tail : String) : String :=
+  match Spec.txBounds b' with
+  | none => "skip-fail"
+  | some bd =>
+    if bd.version ≠ 1 ∧ !bd.hasRct then "-"
+    else s!"ok {Hex.encode (idFromBytes b' bd.version bd.p bd.q bd.isNull)} {Hex.encode (K (b'.take bd.p))}{tail}"
+
 def showTx (bytes : Bytes) (reparse : Bool) (id : Option Bytes) (ph : Bytes) : String :=
   s!"{Hex.encode bytes} {if reparse then "eq" else "ne"} {match id with | some i => Hex.encode i | none => "na"} {Hex.encode ph}"
 end C03
@@ -101,8 +112,27 @@ def stepC03 : Step
       let isNull := match t.base with | some bs => bs.ty == 0 | none => false
       let m := s!"ok {Hex.encode (txHash K t)} {Hex.encode (prefixHash K t.pre)}"
       -- the definition does not cover non-v1 transactions without inputs (no RingCT type): no spec side there
-      let s := if t.pre.version ≠ 1 ∧ t.base.isNone then "-" else s!"ok {Hex.encode (idFromBytes b t.pre.version p q isNull)} {Hex.encode (K (b.take p))}"
-      some (m, s)
+      let s0 := if t.pre.version ≠ 1 ∧ t.base.isNone then "-" else s!"ok {Hex.encode (idFromBytes b t.pre.version p q isNull)} {Hex.encode (K (b.take p))}"
+      -- independent boundaries (by-the-book skipper over the raw bytes); the boundaries of the model's parse (s0, a consequence of
+      -- C05_id_rct) are kept as a cross-check: if the two disagree the spec side shows both and matches nothing
+      let s := specIdOfBytes b ""
+      some (m, if s == s0 then s else s!"{s} | model-boundaries: {s0}")
     | _ => some ("err", "-")
+  | ["c05_txid_partial", h] =>
+    let b := Hex.decode h
+    match tx b with
+    | some (t, r) =>
+      let k := b.length - r.length
+      some (s!"ok {Hex.encode (txHash K t)} {Hex.encode (prefixHash K t.pre)} {k}", specIdOfBytes (b.take k) s!" {k}")
+    | none => some ("err", "-")
+  | "c03_enc" :: rest =>
+    match txD rest with
+    | some (d, []) =>
+      let t := build d
+      let mid := if t.pre.version ≠ 1 ∧ t.base.isNone then none else some (txHash K t)
+      let sh (bytes : Bytes) (id : Option Bytes) (ph : Bytes) : String :=
+        s!"{Hex.encode bytes} {match id with | some i => Hex.encode i | none => "na"} {Hex.encode ph}"
+      some (sh (encTx t) mid (prefixHash K t.pre), sh (Spec.specTx d) (Spec.specTxId K d) (Spec.specPrefixHash K d))
+    | _ => some ("bad-desc", "bad-desc")
   | _ => none
 end Drv
